@@ -102,6 +102,11 @@ def custom_main(tier, replay, bdir, t0):
             continue
         nviol += 1
         dst = v["replay"]
+        if not dst:     # never an empty path: the finding itself (probe, back-end, emitted instructions) is the artefact
+            os.makedirs(rdir, exist_ok=True)
+            dst = os.path.join(rdir, "finding.%s.txt" % hashlib.sha1(v["message"].encode()).hexdigest()[:10])
+            with open(dst, "w") as f:
+                f.write(v["message"] + "\n")
         if dst and os.path.exists(dst) and dst.endswith(".pml"):
             os.makedirs(rdir, exist_ok=True)
             dst2 = os.path.join(rdir, os.path.basename(dst))
